@@ -80,6 +80,9 @@ type State struct {
 	// HLog records every bulk havoc of heap fields / memories on this path, so that a key that is
 	// first touched after the havoc does not silently denote its entry value.
 	HLog []*havocEvent
+	// Escaped: local variables whose address was handed to code the executor does not see (boxed into
+	// an interface, passed to an extern or unknown callee): any such callee may assign them
+	Escaped map[*Cell]bool
 }
 
 // havocEvent is one bulk havoc: every covered key gets a new version, named deterministically from
@@ -158,6 +161,12 @@ func (s *State) clone() *State {
 	n.Held = make(map[string]*Term, len(s.Held))
 	for k, v := range s.Held {
 		n.Held[k] = v
+	}
+	if s.Escaped != nil {
+		n.Escaped = make(map[*Cell]bool, len(s.Escaped))
+		for k, v := range s.Escaped {
+			n.Escaped[k] = v
+		}
 	}
 	n.Loops = make(map[*ssa.BasicBlock]int, len(s.Loops))
 	for k, v := range s.Loops {
@@ -734,7 +743,25 @@ func (s *State) havocHeapWhere(covers func(string) bool) {
 	}
 }
 
+func (s *State) markEscaped(v Value) {
+	if p, ok := v.(PtrV); ok && p.Cell != nil {
+		if s.Escaped == nil {
+			s.Escaped = map[*Cell]bool{}
+		}
+		s.Escaped[p.Cell] = true
+	}
+}
+
+func (s *State) havocEscaped() {
+	for c := range s.Escaped {
+		if _, ok := s.Cells[c]; ok {
+			s.Cells[c] = s.freshValue("esc$"+c.Name, c.Ty)
+		}
+	}
+}
+
 func (s *State) havocAllHeap() {
+	s.havocEscaped()
 	s.havocHeapWhere(func(string) bool { return true })
 	s.X.heapHavocEpoch++
 	// axioms about package-level values hold in every reachable state
